@@ -52,7 +52,8 @@ def gen_cases(rng, n, thorough):
         cut = rng.randint(1, n_ev - 1) if chain else None
         c = {"fl": fl, "impl": impl, "eta": Fraction(1, 2 ** rng.randint(3, 6)), "cv": cv, "ov": ov,
              "pol": pol, "events": events, "cut": cut, "n_jobs": rng.randint(1, 4),
-             "n_outcomes_per_job": rng.randint(1, 7),
+             # also the upper end of the 32-bit parameter ("everything in one job")
+             "n_outcomes_per_job": rng.randint(1, 7) if k % 9 != 4 else rng.choice([2 ** 32 - 1, 2 ** 32 - 2, 2 ** 31]),
              "per": 2 if many_chunks else rng.choice([2, 3, 10000000, 10000000])}
         if chain and impl == "openmp" and rng.random() < 0.6:
             # the continued call gets the same labelled vectors with their dimension columns (and rows) in
